@@ -51,6 +51,8 @@ def _mk_frame(c):
         a_df, a_dt, a_fch1 = x_df * u.GHz, dt * u.s, x_f * u.GHz
         exp = dict(df=F(x_df) * 10**9, dt=F(dt), fch1=F(x_f) * 10**9)
     asc = c['asc']
+    if style in ('hz_s', 'ghz'):
+        asc = np.bool_(asc)        # the flag as it comes out of a numpy comparison (e.g. foff > 0)
     route = c['route']
     data = None
     # deterministic process history: a frame with the same (fch1, df, sizes) but the OPPOSITE orientation is built first, so that anything memoised at module/class level on too coarse a key is in
